@@ -218,10 +218,17 @@ impl RoutingThread {
                     .await;
             }
             Message::KeyListUpdate(key_list) => {
-                self.network
+                // (refused when the peer is unknown or over its rate limit: nothing else to do here)
+                if let Err(e) = self
+                    .network
                     .handle_received_key_list(peer_index, key_list)
                     .await
-                    .unwrap();
+                {
+                    warn!(
+                        "key list from peer : {:?} not handled : {:?}",
+                        peer_index, e
+                    );
+                }
             }
             Message::Block(_) => {
                 // blocks are fetched, never pushed: a peer sending one as a message is ignored
